@@ -72,6 +72,11 @@ func popMultiKeyWorker(ctx *cmdContext, args map[string]any, fn func(keyName str
 	output = blockOnListChangeMultiKey(
 		ctx, keyNames, timeoutNs,
 		func() (output respValue) {
+			// examine all keys in one critical section (a queued command already runs under EXEC's)
+			if !ctx.multi {
+				ctx.dsc.acquireExclusive()
+				defer ctx.dsc.releaseExclusive()
+			}
 			for _, keyName := range keyNames {
 				values, fnErr := fn(keyName, 1)
 				if fnErr != nil {
